@@ -48,7 +48,7 @@ func init() {
 			"harness edge endpoints use the repository's own protocol packages; their conformance is checked by C01/C02/C07",
 			"SS2022 first flights are delivered unfragmented unless allowSegmentedFixedLengthHeader is set (documented precondition)",
 		},
-		ExpectProbes: []string{"c13.wait.payload-in-window", "c13.wait.timeout", "c13.dial-failure", "c13.failure-reply", "c13.half-close.client-first", "c13.half-close.target-first", "c13.chain", "c13.stats-checked", "c13.user-attributed"},
+		ExpectProbes: []string{"c13.wait.payload-in-window", "c13.wait.timeout", "c13.dial-failure", "c13.failure-reply", "c13.failure-reply-code", "c13.half-close.client-first", "c13.half-close.target-first", "c13.chain", "c13.stats-checked", "c13.user-attributed"},
 	})
 }
 
@@ -655,6 +655,23 @@ func runClient(s *simrt.Sim, e *svc.Env, ctx context.Context, sp *svc.ServerSpec
 			}
 			if typed {
 				s.Probe("c13.failure-reply")
+			}
+			// "the protocol's failure reply": where RFC 1928 has an exact counterpart, that one
+			if errors.As(err, &re) && sp.Proto == svc.PSocks5 && sc.mustReply {
+				want := socks5.ReplyError(0)
+				switch sc.fail {
+				case "reject":
+					want = socks5.ReplyConnectionNotAllowedByRuleset
+				case "refused":
+					want = socks5.ReplyConnectionRefused
+				}
+				if want != 0 && re != want {
+					s.Fail("c13.failure-reply-code{"+sc.fail+"}", "%s: the onward connection to %v failed (%s); the SOCKS5 server answered REP=%d (%v), the reply for this outcome is REP=%d (%v)", who, sc.target, sc.fail, byte(re), re, byte(want), want)
+					return
+				}
+				if want != 0 {
+					s.Probe("c13.failure-reply-code")
+				}
 			}
 			sc.sawFailure = true // the protocol's failure reply surfaced as a dial error
 			return
